@@ -24,6 +24,8 @@ func init() {
 			{"FRM-SLOTS", 2, ruleFrmSlots},
 			{"FRM-PAIR", 6, ruleFrmPair},
 			{"HND-FIELDS", 60, ruleHndFields},
+			{"PAR-RESIZE", 5, ruleParResize},
+			{"INS-PATCH", 3, ruleInsPatch},
 		},
 	})
 	register(&propDef{
@@ -780,5 +782,229 @@ func ruleHndFields(c *Ctx, r *R) {
 				}
 			}
 		}
+	}
+}
+
+// ---- PAR-CASE / PAR-RESIZE / INS-PATCH ----
+
+// ruleParResize: every declaration/assignment built from a parsed right-hand side
+// hands the call on it the number of targets (assignResize), and a case clause
+// carries exactly one expression (a list is expanded or not parsed as a list).
+func ruleParResize(c *Ctx, r *R) {
+	// (1) every function that consumes "=" / is an assignment Led and parses a right-hand side calls assignResize on it
+	resize := c.Func("assignResize")
+	if resize == nil {
+		r.undecided("assignResize", "-", "not found")
+		return
+	}
+	for _, name := range c.FuncNames() {
+		fd := c.funcs[name]
+		if fd.Body == nil {
+			continue
+		}
+		// sites: p.Advance("=") followed by a parse whose result is appended
+		ast.Inspect(fd.Body, func(n ast.Node) bool {
+			blk, ok := n.(*ast.BlockStmt)
+			if !ok {
+				return true
+			}
+			for i, st := range blk.List {
+				es, ok := st.(*ast.ExprStmt)
+				if !ok {
+					continue
+				}
+				call, ok := es.X.(*ast.CallExpr)
+				if !ok || c.CalleeName(call) != "parser.Advance" || len(call.Args) != 1 {
+					continue
+				}
+				if s, ok := c.ConstString(call.Args[0]); !ok || s != "=" {
+					continue
+				}
+				// the rest of the block: right := p.Expression(..); X.Append(right); assignResize(left, right)
+				var rhs string
+				appended, resized := false, false
+				for _, st2 := range blk.List[i+1:] {
+					ast.Inspect(st2, func(m ast.Node) bool {
+						switch x := m.(type) {
+						case *ast.AssignStmt:
+							if len(x.Rhs) == 1 && len(x.Lhs) == 1 {
+								if pc, ok := unparen(x.Rhs[0]).(*ast.CallExpr); ok && (c.CalleeName(pc) == "parser.Expression" || c.CalleeName(pc) == "parser.doExpression") {
+									rhs = c.Src(x.Lhs[0])
+								}
+							}
+						case *ast.CallExpr:
+							switch c.CalleeName(x) {
+							case "token.Append":
+								if rhs != "" && len(x.Args) == 1 && c.Src(x.Args[0]) == rhs {
+									appended = true
+								}
+							case "assignResize":
+								if rhs != "" && len(x.Args) == 2 && c.Src(x.Args[1]) == rhs {
+									resized = true
+								}
+							}
+						}
+						return true
+					})
+				}
+				if rhs == "" {
+					continue
+				}
+				key := fmt.Sprintf("%s after `=` at %s", name, c.Pos(call))
+				key = name + " `=` #" + fmt.Sprint(len(r.seen))
+				r.check(!appended || resized, key, c.Pos(call), "the initialiser call is resized to the number of targets",
+					name+": after `=` the parsed initialiser is attached to the declaration without assignResize: `var a, b T = f()` requests one result but stores two (the second store pops a local slot)")
+			}
+			return true
+		})
+	}
+	// the infix assignment handler
+	rows, err := c.symbolTable()
+	if err == nil {
+		for _, op := range []string{"=", ":="} {
+			if row := rows[op]; row != nil && row.Led != nil {
+				fd := c.DeclOf(row.Led)
+				ok := false
+				if fd != nil {
+					ast.Inspect(fd.Body, func(n ast.Node) bool {
+						if call, isC := n.(*ast.CallExpr); isC && c.CalleeName(call) == "assignResize" {
+							ok = true
+						}
+						return true
+					})
+				}
+				r.check(ok, "Led "+op, c.Pos(row.Node), "resizes the right-hand call to the targets", "the Led of "+op+" does not call assignResize: a, b = f() requests one result")
+			}
+		}
+	}
+	// (2) case clauses carry one expression each
+	if fd := c.Func("switchNud"); fd != nil {
+		var parse *ast.CallExpr
+		var parseLHS string
+		ast.Inspect(fd.Body, func(n ast.Node) bool {
+			blk, ok := n.(*ast.BlockStmt)
+			if !ok {
+				return true
+			}
+			for i, st := range blk.List {
+				// c := p.Advance("case")
+				as, ok := st.(*ast.AssignStmt)
+				if !ok || len(as.Rhs) != 1 {
+					continue
+				}
+				call, ok := unparen(as.Rhs[0]).(*ast.CallExpr)
+				if !ok || c.CalleeName(call) != "parser.Advance" {
+					continue
+				}
+				if s, ok := c.ConstString(call.Args[0]); !ok || s != "case" {
+					continue
+				}
+				for _, st2 := range blk.List[i+1:] {
+					ast.Inspect(st2, func(m ast.Node) bool {
+						if pc, ok := m.(*ast.CallExpr); ok && parse == nil {
+							switch c.CalleeName(pc) {
+							case "parser.Expression", "parser.Statement", "parser.doExpression":
+								parse = pc
+								if pas, ok := c.Parent(pc).(*ast.AssignStmt); ok {
+									parseLHS = c.Src(pas.Lhs[0])
+								} else if outer, ok := c.Parent(pc).(*ast.CallExpr); ok && c.CalleeName(outer) == "plural" {
+									if pas, ok := c.Parent(outer).(*ast.AssignStmt); ok {
+										parseLHS = c.Src(pas.Lhs[0])
+									}
+								}
+							}
+						}
+						return true
+					})
+					if parse != nil {
+						break
+					}
+				}
+			}
+			return true
+		})
+		if parse == nil {
+			r.undecided("case slot", c.Pos(fd), "the parse of a case expression was not found")
+		} else {
+			single := false
+			if c.CalleeName(parse) != "parser.Statement" && len(parse.Args) >= 1 {
+				if k, ok := c.ConstInt(parse.Args[0]); ok {
+					if rows, err := c.symbolTable(); err == nil && rows[","] != nil && k >= rows[","].Lbp {
+						single = true // a list is not parsed as one expression
+					}
+				}
+			}
+			expanded := false
+			if parseLHS != "" {
+				ast.Inspect(fd.Body, func(n ast.Node) bool {
+					if rs, ok := n.(*ast.RangeStmt); ok && nosp(c.Src(rs.X)) == nosp(parseLHS+".Tokens") {
+						if v, ok := rs.Value.(*ast.Ident); ok {
+							ast.Inspect(rs.Body, func(m ast.Node) bool {
+								if call, ok := m.(*ast.CallExpr); ok && c.CalleeName(call) == "token.Append" && len(call.Args) == 1 && isIdent(call.Args[0], v.Name) {
+									expanded = true
+								}
+								return true
+							})
+						}
+					}
+					return true
+				})
+			}
+			r.check(single || expanded, "case slot", c.Pos(parse), "one expression per case clause (a list is expanded into clauses)",
+				"switchNud attaches a parsed expression list to a single case clause: `case a, b:` pushes both values but compares only the last (the clause does not match a, and each execution leaks a value)")
+			r.check(c.CalleeName(parse) != "parser.Statement", "case slot expr", c.Pos(parse), "parsed as an expression", "case expressions are parsed with the statement rule")
+		}
+	} else {
+		r.undecided("case slot", "-", "switchNud not found")
+	}
+}
+
+// ruleInsPatch: a field of an already emitted instruction is only written under a test of that instruction's opcode.
+func ruleInsPatch(c *Ctx, r *R) {
+	n := 0
+	for _, name := range c.FuncNames() {
+		fd := c.funcs[name]
+		if fd.Body == nil {
+			continue
+		}
+		ast.Inspect(fd.Body, func(m ast.Node) bool {
+			as, ok := m.(*ast.AssignStmt)
+			if !ok {
+				return true
+			}
+			for _, l := range as.Lhs {
+				sel, ok := unparen(l).(*ast.SelectorExpr)
+				if !ok || !isNamed(c.TypeOf(sel.X), "instruction") {
+					continue
+				}
+				if sel.Sel.Name != "A" && sel.Sel.Name != "B" && sel.Sel.Name != "C" && sel.Sel.Name != "Code" {
+					continue
+				}
+				n++
+				elem := nosp(c.Src(sel.X))
+				// enclosing if / switch that tests <elem>.Code (or a copy of the element ranged from the same slice)
+				guarded := false
+				var child ast.Node = as
+				for p := c.Parent(as); p != nil && p != ast.Node(fd); child, p = p, c.Parent(p) {
+					switch x := p.(type) {
+					case *ast.IfStmt:
+						if x.Body == child && strings.Contains(nosp(c.Src(x.Cond)), ".Code") {
+							guarded = true
+						}
+					case *ast.CaseClause:
+						if sw, ok := c.Parent(c.Parent(x)).(*ast.SwitchStmt); ok && sw.Tag != nil && strings.HasSuffix(nosp(c.Src(sw.Tag)), ".Code") {
+							guarded = true
+						}
+					}
+				}
+				key := fmt.Sprintf("%s %s.%s", name, elem, sel.Sel.Name)
+				r.check(guarded, key, c.Pos(as), "written under a test of the instruction's opcode",
+					fmt.Sprintf("%s writes operand %s of an already emitted instruction (%s) without testing which opcode it is: the operand means something else for other opcodes (e.g. the result count patched into APPEND's spread flag by `return append(a, x)`)", name, sel.Sel.Name, elem))
+			}
+			return true
+		})
+	}
+	if n == 0 {
+		r.undecided("patches", "-", "no write to an emitted instruction's operand found")
 	}
 }
